@@ -41,9 +41,11 @@ InitBindFn ==
         IN [owner |-> b.o, dep |-> b.dep, pr |-> b.pr, sp |-> b.pr, qos |-> b.qos,
             avail |-> b.avail, dtime |-> 0]]
 
+InitNowVal == 0
+
 MCInit ==
     /\ height = 1
-    /\ now = 0
+    /\ now = InitNowVal
     /\ phase = "deliver"
     /\ params = Params
     /\ bal = [a \in AllAccts |->
@@ -67,39 +69,42 @@ MCInit ==
 
 On(m) == m \in Msgs
 
+\* argument sets: everything in exhaustive runs, one random element per evaluation in simulation
+Pick(S) == S
+
 OutOf(r, kind) == IF kind = "none" THEN "" ELSE IF kind = "bad" THEN "B" ELSE "V"
 
 MsgStep ==
-    \/ On("Define") /\ \E a \in Signers, s \in SvcNames :
+    \/ On("Define") /\ \E a \in Pick(Signers), s \in Pick(SvcNames) :
           /\ Define(a, s, "d")
           /\ ev' = [name |-> "Define", ok |-> TRUE, signer |-> a, svc |-> s, dg |-> "d"]
-    \/ On("Bind") /\ \E o \in Signers, s \in SvcNames, p \in Provs, d \in Deposits \ {0}, pr \in Prs, q \in QosSet :
+    \/ On("Bind") /\ \E o \in Pick(Signers), s \in Pick(SvcNames), p \in Pick(Provs), d \in Pick(Deposits \ {0}), pr \in Pick(Prs), q \in Pick(QosSet) :
           /\ Bind(o, s, p, d, TRUE, pr, TRUE, q)
           /\ ev' = [name |-> "Bind", ok |-> TRUE, signer |-> o, svc |-> s, prov |-> p, deposit |-> d,
                     dok |-> TRUE, pr |-> pr, prok |-> TRUE, qos |-> q]
-    \/ On("UpdateBinding") /\ \E o \in Signers, s \in SvcNames, p \in Provs, d \in Deposits, hasPr \in BOOLEAN, pr \in Prs, q \in QosSet \cup {0} :
+    \/ On("UpdateBinding") /\ \E o \in Pick(Signers), s \in Pick(SvcNames), p \in Pick(Provs), d \in Pick(Deposits), hasPr \in Pick(BOOLEAN), pr \in Pick(Prs), q \in Pick(QosSet \cup {0}) :
           /\ (~hasPr => pr = CHOOSE x \in Prs : TRUE)
           /\ (d # 0 \/ hasPr \/ q # 0)
           /\ UpdateBinding(o, s, p, d, TRUE, hasPr, pr, TRUE, q)
           /\ ev' = [name |-> "UpdateBinding", ok |-> TRUE, signer |-> o, svc |-> s, prov |-> p,
                     deposit |-> d, dok |-> TRUE, hasPr |-> hasPr, pr |-> pr, prok |-> TRUE, qos |-> q]
-    \/ On("Disable") /\ \E o \in Signers, s \in SvcNames, p \in Provs :
+    \/ On("Disable") /\ \E o \in Pick(Signers), s \in Pick(SvcNames), p \in Pick(Provs) :
           /\ Disable(o, s, p)
           /\ ev' = [name |-> "Disable", ok |-> TRUE, signer |-> o, svc |-> s, prov |-> p]
-    \/ On("Enable") /\ \E o \in Signers, s \in SvcNames, p \in Provs, d \in Deposits :
+    \/ On("Enable") /\ \E o \in Pick(Signers), s \in Pick(SvcNames), p \in Pick(Provs), d \in Pick(Deposits) :
           /\ Enable(o, s, p, d, TRUE)
           /\ ev' = [name |-> "Enable", ok |-> TRUE, signer |-> o, svc |-> s, prov |-> p,
                     deposit |-> d, dok |-> TRUE]
-    \/ On("RefundDeposit") /\ \E o \in Signers, s \in SvcNames, p \in Provs :
+    \/ On("RefundDeposit") /\ \E o \in Pick(Signers), s \in Pick(SvcNames), p \in Pick(Provs) :
           /\ RefundDeposit(o, s, p)
           /\ ev' = [name |-> "RefundDeposit", ok |-> TRUE, signer |-> o, svc |-> s, prov |-> p]
-    \/ On("SetWithdrawAddr") /\ \E o \in Signers, w \in Signers \cup Consumers :
+    \/ On("SetWithdrawAddr") /\ \E o \in Pick(Signers), w \in Pick(Signers \cup Consumers) :
           /\ o # w
           /\ SetWithdrawAddr(o, w)
           /\ ev' = [name |-> "SetWithdrawAddr", ok |-> TRUE, signer |-> o, addr |-> w]
     \/ On("Call") /\ nctx < MaxCtx /\
-          \E c \in Consumers, s \in SvcNames, ps \in ProvSeqs, cap \in Caps, t \in Timeouts,
-             super \in BOOLEAN, rep \in BOOLEAN, f \in Freqs, n \in Totals :
+          \E c \in Pick(Consumers), s \in Pick(SvcNames), ps \in Pick(ProvSeqs), cap \in Pick(Caps), t \in Pick(Timeouts),
+             super \in Pick(BOOLEAN), rep \in Pick(BOOLEAN), f \in Pick(Freqs), n \in Pick(Totals) :
           /\ (On("NoSuper") => ~super)
           /\ (rep => (f = 0 \/ f >= t))
           /\ (~rep => f = 0 /\ n = 1)
@@ -109,8 +114,8 @@ MsgStep ==
                     super |-> super, rep |-> rep, freq |-> f, total |-> IF rep THEN n ELSE 0,
                     id |-> nctx + 1]
     \/ On("ModCreate") /\ nctx < MaxCtx /\
-          \E c \in Consumers, s \in SvcNames, ps \in ProvSeqs, cap \in Caps, t \in Timeouts,
-             rep \in BOOLEAN, f \in Freqs, n \in Totals, st \in {"running", "paused"}, thr \in Thresholds :
+          \E c \in Pick(Consumers), s \in Pick(SvcNames), ps \in Pick(ProvSeqs), cap \in Pick(Caps), t \in Pick(Timeouts),
+             rep \in Pick(BOOLEAN), f \in Pick(Freqs), n \in Pick(Totals), st \in Pick({"running", "paused"}), thr \in Pick(Thresholds) :
           /\ (rep => (f = 0 \/ f >= t))
           /\ (~rep => f = 0 /\ n = 1)
           /\ ModCreate("vmod", c, s, ps, "in", cap, TRUE, TRUE, t, FALSE, rep, f, IF rep THEN n ELSE 0, st, thr)
@@ -118,40 +123,45 @@ MsgStep ==
                     provs |-> ps, input |-> "in", cap |-> cap, capok |-> TRUE, inok |-> TRUE,
                     timeout |-> t, super |-> FALSE, rep |-> rep, freq |-> f,
                     total |-> IF rep THEN n ELSE 0, state |-> st, thr |-> thr, id |-> nctx + 1]
-    \/ On("Pause") /\ \E c \in Consumers, id \in DOMAIN ctx :
+    \/ On("Pause") /\ \E id \in DOMAIN ctx : LET c == ctx[id].cons IN
           /\ Pause(c, id)
           /\ ev' = [name |-> "Pause", ok |-> TRUE, signer |-> c, id |-> id]
-    \/ On("Start") /\ \E c \in Consumers, id \in DOMAIN ctx :
+    \/ On("Start") /\ \E id \in DOMAIN ctx : LET c == ctx[id].cons IN
           /\ Start(c, id)
           /\ ev' = [name |-> "Start", ok |-> TRUE, signer |-> c, id |-> id]
-    \/ On("Kill") /\ \E c \in Consumers, id \in DOMAIN ctx :
+    \/ On("Kill") /\ \E id \in DOMAIN ctx : LET c == ctx[id].cons IN
+          /\ ctx[id].state # "completed"      \* (kill is idempotent: a self-loop)
           /\ Kill(c, id)
           /\ ev' = [name |-> "Kill", ok |-> TRUE, signer |-> c, id |-> id]
-    \/ On("ModPause") /\ \E c \in Consumers, id \in DOMAIN ctx :
+    \/ On("ModPause") /\ \E id \in DOMAIN ctx : LET c == ctx[id].cons IN
           /\ ctx[id].module # "" /\ ModPause(c, id)
           /\ ev' = [name |-> "ModPause", ok |-> TRUE, signer |-> c, id |-> id]
-    \/ On("ModStart") /\ \E c \in Consumers, id \in DOMAIN ctx :
+    \/ On("ModStart") /\ \E id \in DOMAIN ctx : LET c == ctx[id].cons IN
           /\ ctx[id].module # "" /\ ModStart(c, id)
           /\ ev' = [name |-> "ModStart", ok |-> TRUE, signer |-> c, id |-> id]
-    \/ On("ModKill") /\ \E c \in Consumers, id \in DOMAIN ctx :
-          /\ ctx[id].module # "" /\ ModKill(c, id)
+    \/ On("ModKill") /\ \E id \in DOMAIN ctx : LET c == ctx[id].cons IN
+          /\ ctx[id].module # "" /\ ctx[id].state # "completed" /\ ModKill(c, id)
           /\ ev' = [name |-> "ModKill", ok |-> TRUE, signer |-> c, id |-> id]
-    \/ On("UpdateContext") /\ \E c \in Consumers, id \in DOMAIN ctx, ps \in ProvSeqs \cup {<<>>},
-             cap \in Caps \cup {0}, t \in Timeouts \cup {0}, f \in Freqs, n \in Totals \cup {0} :
+    \/ On("UpdateContext") /\ \E id \in DOMAIN ctx, ps \in Pick(ProvSeqs \cup {<<>>}),
+             cap \in Pick(Caps \cup {0}), t \in Pick(Timeouts \cup {0}), f \in Pick(Freqs), n \in Pick(Totals \cup {0}) :
+          LET c == ctx[id].cons IN
           /\ (t # 0 /\ f # 0 => f >= t)
-          /\ (ps # <<>> \/ cap # 0 \/ t # 0 \/ f # 0 \/ n # 0)
+          \* one group of fields per message (providers | cap | timeout and frequency | total): the
+          \* code treats the groups independently; combinations are left to the random driver
+          /\ Cardinality({g \in {1, 2, 3, 4} : CASE g = 1 -> ps # <<>> [] g = 2 -> cap # 0
+                                               [] g = 3 -> (t # 0 \/ f # 0) [] g = 4 -> n # 0}) = 1
           /\ UpdateContext(c, id, ps, cap # 0, cap, TRUE, t, f, n)
           /\ ev' = [name |-> "UpdateContext", ok |-> TRUE, signer |-> c, id |-> id, provs |-> ps,
                     hasCap |-> cap # 0, cap |-> cap, capok |-> TRUE, timeout |-> t, freq |-> f, total |-> n]
-    \/ On("Respond") /\ \E p \in Provs, r \in actId, kind \in Kinds :
+    \/ On("Respond") /\ \E r \in actId, kind \in Pick(Kinds) : LET p == req[r].prov IN
           /\ Respond(p, r, kind, OutOf(r, kind))
           /\ ev' = [name |-> "Respond", ok |-> TRUE, signer |-> p, rid |-> r, kind |-> kind,
                     out |-> OutOf(r, kind)]
-    \/ On("Withdraw") /\ \E o \in Signers, p \in Provs \cup {""} :
+    \/ On("Withdraw") /\ \E o \in Pick(Signers), p \in Pick(Provs \cup {""}) :
           /\ WithdrawAmt(o, p) > 0
           /\ Withdraw(o, p)
           /\ ev' = [name |-> "Withdraw", ok |-> TRUE, signer |-> o, prov |-> p]
-    \/ On("BankSend") /\ \E a \in Accts, b \in Accts, n \in {1, 2} :
+    \/ On("BankSend") /\ \E a \in Pick(Accts), b \in Pick(Accts), n \in Pick({1, 2}) :
           /\ a # b
           /\ BankSend(a, b, n)
           /\ ev' = [name |-> "BankSend", ok |-> TRUE, signer |-> a, to |-> b, amount |-> n]
